@@ -30,7 +30,7 @@ type c18Op struct {
 	U    int      `json:"u"`
 	Set  [6]bool  `json:"set,omitempty"`
 	Val  [6]int64 `json:"val,omitempty"`
-	Bad  string   `json:"bad,omitempty"` // mismatch garbage notb64 empty
+	Bad  string   `json:"bad,omitempty"` // mismatch garbage notb64 empty illtyped
 	Up   int64    `json:"up,omitempty"`
 	Down int64    `json:"down,omitempty"`
 	Via  string   `json:"via,omitempty"` // upload: "manager" or "panel"
@@ -273,6 +273,19 @@ func c18RunInner(sc c18Scenario) (res vk.Result, err error) {
 				other := c18UID((op.U + 1) % 4)
 				b, _ := json.Marshal(map[string]interface{}{"UID": other, "UpCredit": op.Val[3], "SessionsCap": int32(op.Val[0])})
 				code, _ = e.do("POST", url, b)
+			case "illtyped":
+				// syntactically valid, right UID, well-formed values for some fields - and one value that does not fit its
+				// field's type. encoding/json keeps filling the other fields after such an error.
+				bads := []string{`"SessionsCap":2147483648`, `"SessionsCap":-2147483649`, `"UpCredit":9223372036854775808`, `"DownCredit":1.5`, `"UpRate":"12"`, `"DownRate":true`, `"ExpiryTime":[1]`, `"UpCredit":{"a":1}`, `"SessionsCap":1e10`}
+				bad := bads[int(uint64(op.Val[3])%uint64(len(bads)))]
+				ub, _ := json.Marshal(uid)
+				var raw string
+				if op.Val[0]%2 == 0 {
+					raw = fmt.Sprintf(`{"UID":%s,"UpRate":77,"DownCredit":88,%s}`, ub, bad)
+				} else {
+					raw = fmt.Sprintf(`{%s,"UID":%s,"ExpiryTime":99,"DownRate":5}`, bad, ub)
+				}
+				code, _ = e.do("POST", url, []byte(raw))
 			case "garbage":
 				code, _ = e.do("POST", url, []byte(`{"UID": "AAAA", "UpRate": "many"`))
 			case "notb64":
@@ -394,9 +407,13 @@ func c18Gen(rt *rapid.T) c18Scenario {
 			op.Val = [6]int64{rapid.SampledFrom([]int64{1, 2, 10, 1<<31 - 1}).Draw(rt, "gcap"), pos.Draw(rt, "gup"), pos.Draw(rt, "gdown"), pos.Draw(rt, "gupc"), pos.Draw(rt, "gdownc"),
 				rapid.SampledFrom([]int64{1700000000, 1700000001, 1 << 40, 1<<63 - 1}).Draw(rt, "gexp")}
 		case "badpost":
-			op.Bad = rapid.SampledFrom([]string{"mismatch", "mismatch", "garbage", "notb64", "empty"}).Draw(rt, "bad")
+			op.Bad = rapid.SampledFrom([]string{"mismatch", "mismatch", "garbage", "notb64", "empty", "illtyped", "illtyped", "illtyped"}).Draw(rt, "bad")
 			op.Val[3] = vals.Draw(rt, "bv")
 			op.Val[0] = 3
+			if op.Bad == "illtyped" {
+				op.Val[3] = int64(rapid.IntRange(0, 8).Draw(rt, "illkind"))
+				op.Val[0] = int64(rapid.IntRange(0, 1).Draw(rt, "illorder"))
+			}
 		case "upload":
 			op.Up = vals.Draw(rt, "up")
 			op.Down = vals.Draw(rt, "down")
